@@ -1,4 +1,5 @@
 import Hertz.Model.Bind
+import Hertz.Model.BindNested
 /-!
 Declarative specification of `Bind` (property C15), written without the tag loop of the decoders:
 
@@ -268,5 +269,103 @@ def specBindBy (tg : Option Src) (fields : List Field) (r : Req) : Outcome :=
   match tg with
   | none => specBind fields r
   | some s => specFieldsBy s r fields
+
+/-! ## Nested struct types (extension X15)
+
+  *every LEAF of a struct type of any depth is bound as a top-level field would be: from the first of path, form,
+  query, cookie, header that its OWN tags name and that is present, else from the JSON body, where the body that counts
+  for the leaf is the object found under the dotted path of the JSON names of the enclosing struct fields (json tag
+  name, else Go name); siblings, cousins and the position in the tree play no role.  A struct-typed field may itself
+  be `required`.  Binding a request twice gives the same result, however the body is delivered.*  -/
+
+/-- the request as a leaf inside the object with key path `P` sees it: same text sources, the JSON members of that
+object (none when the object is absent) -/
+def focus (q : NReq) (P : List Bytes) : Req :=
+  { q.r with body := match q.r.body with
+      | .json _ => .json (exactMembers q P)
+      | b => b }
+
+/-- the JSON name a struct-typed field contributes to the path of its fields -/
+def specName (hdr : Field) : Bytes :=
+  match named hdr .json with
+  | some (n, _) => n
+  | none => hdr.name
+
+/-- a struct-typed field itself: `required` is an error when nothing carries it; a text addressed to it is decoded as
+JSON (no opinion) -/
+def specStruct (hdr : Field) (r : Req) : FOut :=
+  match firstText hdr r with
+  | some _ => .unk
+  | none =>
+    let dflt : FOut := if dfltOf hdr = [] then .ok .unset else .unk
+    match named hdr .json with
+    | some (n, _) => if jsonCarries r n then .ok .unset else if anyRequired hdr then .err .required else dflt
+    | none => if anyRequired hdr then .err .required else dflt
+
+/-- an embedded struct without a JSON name of its own: the unmarshaller promotes its fields into the enclosing object,
+so the body that counts for them is the enclosing object -/
+def promoted (hdr : Field) (anon : Bool) : Bool := structJSONName hdr anon == some none
+
+def consOut : FOut → NOutcome → NOutcome
+  | .err e, _ => .err e
+  | .unk, _ => .unk
+  | .ok v, .ok vs => .ok (v :: vs)
+  | .ok _, o => o
+
+def appendOut : NOutcome → NOutcome → NOutcome
+  | .ok a, .ok b => .ok (a ++ b)
+  | .ok _, o => o
+  | o, _ => o
+
+/-- leaves in field order, depth first; `P` = JSON key path of the enclosing object -/
+def specForest (q : NReq) (P : List Bytes) : Forest → NOutcome
+  | .nil => .ok []
+  | .leaf f rest => consOut (specField f (focus q P)) (specForest q P rest)
+  | .strct hdr anon kids rest =>
+    match specStruct hdr (focus q P) with
+    | .err e => .err e
+    | .unk => .unk
+    | .ok _ => appendOut (specForest q (if promoted hdr anon then P else P ++ [specName hdr]) kids) (specForest q P rest)
+
+/-- **The specification of Bind for nested types.**  The unmarshaller's verdict on the document as a whole is taken
+from `preBindN`; the state of the body (buffered / stream) does not occur. -/
+def specBindN (t : Forest) (q : NReq) : NOutcome :=
+  match preBindN false q.seen t with
+  | .err => .err .body
+  | .unk => .unk
+  | .ok _ => specForest q.seen [] t
+
+/-- every field of the tree with the key path of its enclosing object as the specification sees it (`P`) and as the
+unmarshaller sees it (`D`; `none` = under a struct the unmarshaller ignores: class `json-dash`; under a promoted embedded
+struct `D` is the path on which the decoders look, which has the Go name of the struct in it: class `embedded-json-path`);
+`true` marks struct-typed fields -/
+def fieldCtx (P : List Bytes) (D : Option (List Bytes)) : Forest → List (Field × Bool × List Bytes × Option (List Bytes))
+  | .nil => []
+  | .leaf f rest => (f, false, P, D) :: fieldCtx P D rest
+  | .strct hdr anon kids rest =>
+    (hdr, true, P, D) ::
+      (fieldCtx (if promoted hdr anon then P else P ++ [specName hdr])
+          (if promoted hdr anon then (stepD D hdr anon).map (· ++ [specName hdr]) else stepD D hdr anon) kids ++
+        fieldCtx P D rest)
+
+/-! ### classes of known deviations for nested fields -/
+
+/-- a `required` json tag whose enclosing object is absent from a JSON body: `checkRequireJSON` reports the key as
+found ("there should be a superior"), the missing value is a silent zero (and earlier `required` errors are cleared) -/
+def clsWaived (q : NReq) (P : List Bytes) (f : Field) : Bool :=
+  (fieldTagInfos f).any (fun ti => ti.key == .json && ti.required && ctFold q.r && !nodeExists q P ti.jsonName && superiorAbsent q P)
+
+/-- the unmarshaller fills the field from another object than the one the tags name: an enclosing struct is embedded
+(promoted fields) or `json:"-"`, or a key on the way differs in letter case from the JSON name -/
+def clsPathExtra (q : NReq) (P : List Bytes) (D : Option (List Bytes)) : Bool :=
+  D != some P || (isJSONReq q && q.deep.any (fun e => ciPathEq e.parents P && e.parents != P))
+
+def nestedClass (q : NReq) (x : Field × Bool × List Bytes × Option (List Bytes)) : String :=
+  if clsWaived q x.2.2.1 x.1 then "nested-required-waived"
+  else if clsPathExtra q x.2.2.1 x.2.2.2 then
+    -- an enclosing struct is embedded (its fields are promoted by the unmarshaller, the decoders look under its Go
+    -- name) or `json:"-"`; otherwise a key on the way differs in letter case
+    (if x.2.2.2 == none then "json-dash" else if x.2.2.2 != some x.2.2.1 then "embedded-json-path" else "json-prebind-extra")
+  else fieldClass x.1 (focus q x.2.2.1)
 
 end Hertz.Spec.Bind
